@@ -519,8 +519,16 @@ pub fn gen_resize(rng: &mut Rng, cfg: &ResizeCfg, classes: &mut Vec<String>, pt_
 
 pub fn gen_alpha(rng: &mut Rng, max_dim: u32, allow_sim: bool, classes: &mut Vec<String>, alpha_only: bool) -> AlphaOp {
     let pt = if alpha_only || rng.chance(19, 20) { *rng.pick(&ALPHA_PT) } else { *rng.pick(&ALL_PT) };
-    let (w, h, shape) = pick_dst_shape(rng, max_dim, false);
+    let (mut w, mut h, shape) = pick_dst_shape(rng, max_dim, false);
     classes.push(format!("alpha-shape:{}", shape));
+    if !alpha_only && rng.chance(1, 40) {
+        if rng.chance(1, 2) {
+            w = 0;
+        } else {
+            h = 0;
+        }
+        classes.push("alpha-zero-size".into());
+    }
     let inplace = rng.chance(1, 2);
     let yield_rows = rng.chance(2, 3);
     if inplace {
@@ -560,8 +568,20 @@ pub fn gen_map(rng: &mut Rng, max_dim: u32, classes: &mut Vec<String>) -> MapOp 
     } else {
         pt.with_comp_kind(if rng.chance(1, 2) { 0 } else { 1 }).unwrap()
     };
-    let w = rng.range(1, max_dim.min(120) as u64) as u32;
-    let h = rng.range(1, max_dim.min(120) as u64) as u32;
+    let mut w = rng.range(1, max_dim.min(120) as u64) as u32;
+    let mut h = rng.range(1, max_dim.min(120) as u64) as u32;
+    if rng.chance(1, 30) {
+        if rng.chance(1, 2) {
+            w = 0;
+        } else {
+            h = 0;
+        }
+        classes.push("map-zero-size".into());
+    } else if rng.chance(1, 10) {
+        w = 1;
+    } else if rng.chance(1, 10) {
+        h = 1;
+    }
     let inplace = rng.chance(1, 3);
     if inplace {
         let k = *rng.pick(&DST_DYN);
@@ -593,8 +613,20 @@ pub fn gen_convert(rng: &mut Rng, max_dim: u32, classes: &mut Vec<String>) -> Co
             }
         }
     };
-    let w = rng.range(1, max_dim.min(120) as u64) as u32;
-    let h = rng.range(1, max_dim.min(120) as u64) as u32;
+    let mut w = rng.range(1, max_dim.min(120) as u64) as u32;
+    let mut h = rng.range(1, max_dim.min(120) as u64) as u32;
+    if rng.chance(1, 30) {
+        if rng.chance(1, 2) {
+            w = 0;
+        } else {
+            h = 0;
+        }
+        classes.push("convert-zero-size".into());
+    } else if rng.chance(1, 10) {
+        w = 1;
+    } else if rng.chance(1, 10) {
+        h = 1;
+    }
     let (sk, dk) = loop {
         let (s, d) = (*rng.pick(&SRC_DYN), *rng.pick(&DST_DYN));
         if pair_ok(s, d) {
